@@ -286,6 +286,81 @@ fn small_str(rng: &mut Rng) -> String {
 #[derive(Clone, Copy)]
 struct Cfg {
     marks: bool, // direct-only program: marks and blocks allowed, nothing goes to the model
+    focus: bool, // conflict-focused program: every replica works on root key "a" and the first elements of list "l"
+    diverge: bool, // conflict-focused program, first round: only puts / increments on the shared registers (no merges yet)
+}
+
+fn small_value(rng: &mut Rng) -> ScalarValue {
+    match rng.below(6) {
+        0 | 1 | 2 => ScalarValue::counter(rng.below(9) as i64),
+        3 => ScalarValue::Str(rng.pick(&["x", "text", "\u{e9}"]).to_string().into()),
+        4 => ScalarValue::Int(rng.below(5) as i64),
+        _ => ScalarValue::Null,
+    }
+}
+
+/// conflict-focused stream: counters and non-counters put concurrently on the same few registers, then
+/// incremented / overwritten / deleted after the merge
+fn gen_focus<D: ReadDoc>(doc: &D, rng: &mut Rng, diverge: bool) -> Option<Cmd> {
+    let list = match doc.get(ROOT, "l") {
+        Ok(Some((Value::Object(ObjType::List), id))) => id,
+        _ => return Some(Cmd::PutObj(ROOT, P::Map("l".into()), ObjType::List)),
+    };
+    let len = doc.length(&list);
+    if len == 0 {
+        return Some(Cmd::Insert(list, 0, small_value(rng)));
+    }
+    // the shared registers
+    let mut regs: Vec<(ObjId, P)> = vec![(ROOT, P::Map("a".into()))];
+    for i in 0..len.min(3) {
+        regs.push((list.clone(), P::Seq(i)));
+    }
+    if diverge {
+        let (o, p) = rng.pick(&regs).clone();
+        return if has_counter(doc, &o, &p) && rng.chance(1, 3) {
+            Some(Cmd::Inc(o, p, rng.below(5) as i64))
+        } else {
+            Some(Cmd::Put(o, p, small_value(rng)))
+        };
+    }
+    // after a merge: go for a conflicted register first (increment it when it holds a counter)
+    let conflicted: Vec<(ObjId, P)> = regs.iter().filter(|(o, p)| doc.get_all(o, prop_of(p)).map(|v| v.len() >= 2).unwrap_or(false)).cloned().collect();
+    if !conflicted.is_empty() && rng.chance(3, 4) {
+        let (o, p) = rng.pick(&conflicted).clone();
+        return match rng.below(8) {
+            0 | 1 | 2 | 3 if has_counter(doc, &o, &p) => Some(Cmd::Inc(o, p, rng.below(7) as i64 - 2)),
+            4 => Some(Cmd::Delete(o, p)),
+            5 => Some(Cmd::PutObj(o, p, ObjType::Map)),
+            6 => match current_scalar(doc, &o, &p) {
+                Some(v) => Some(Cmd::Put(o, p, v)), // the winner's own value: conflict resolution by delete
+                None => Some(Cmd::Put(o, p, small_value(rng))),
+            },
+            _ => Some(Cmd::Put(o, p, small_value(rng))),
+        };
+    }
+    let i = rng.below(len.min(2) as u64) as usize;
+    match rng.below(14) {
+        0 | 1 | 2 => Some(Cmd::Put(list, P::Seq(i), small_value(rng))),
+        3 | 4 | 5 => {
+            if has_counter(doc, &list, &P::Seq(i)) {
+                Some(Cmd::Inc(list, P::Seq(i), rng.below(7) as i64 - 2))
+            } else {
+                Some(Cmd::Put(list, P::Seq(i), ScalarValue::counter(rng.below(4) as i64)))
+            }
+        }
+        6 => Some(Cmd::Put(ROOT, P::Map("a".into()), small_value(rng))),
+        7 | 8 => {
+            if has_counter(doc, &ROOT, &P::Map("a".into())) {
+                Some(Cmd::Inc(ROOT, P::Map("a".into()), 3))
+            } else {
+                Some(Cmd::Put(ROOT, P::Map("a".into()), ScalarValue::counter(rng.below(4) as i64)))
+            }
+        }
+        9 if len > 1 => Some(Cmd::Delete(list, P::Seq(i))),
+        10 => Some(Cmd::Delete(ROOT, P::Map("a".into()))),
+        11 => Some(Cmd::PutObj(list, P::Seq(i), ObjType::Map)),
+        _ => Some(Cmd::Insert(list, rng.below(len as u64 + 1) as usize, small_value(rng))),
+    }
 }
 
 /// current winner of a register as a scalar, if it is one
@@ -297,6 +372,9 @@ fn current_scalar<D: ReadDoc>(doc: &D, obj: &ObjId, p: &P) -> Option<ScalarValue
 }
 
 fn gen_valid<D: ReadDoc>(doc: &D, rng: &mut Rng, objs: &[(ObjId, ObjType)], cfg: Cfg) -> Option<Cmd> {
+    if cfg.focus && (cfg.diverge || rng.chance(5, 6)) {
+        return gen_focus(doc, rng, cfg.diverge);
+    }
     let seqs: Vec<_> = objs.iter().filter(|o| o.1.is_sequence()).cloned().collect();
     let (obj, ty) = if !seqs.is_empty() && rng.chance(1, 2) { rng.pick(&seqs).clone() } else { rng.pick(objs).clone() };
     match ty {
@@ -584,7 +662,9 @@ struct Ctx<'a> {
 }
 
 /// run `n` generated calls on an open transaction, checking (c) and (d) directly
-fn run_calls<T: Transactable>(t: &mut T, rng: &mut Rng, rep: &mut Report, ctx: &mut Ctx<'_>, cands: &mut Vec<(ObjId, ObjType)>, n: usize, start_op: u64) -> SegOut {
+type Reload<'a, T> = &'a dyn Fn(&T, &[(ObjId, ObjType)]) -> Option<Result<Vec<(ObjId, String)>, String>>;
+
+fn run_calls<T: Transactable>(t: &mut T, rng: &mut Rng, rep: &mut Report, ctx: &mut Ctx<'_>, cands: &mut Vec<(ObjId, ObjType)>, n: usize, start_op: u64, reload: Reload<'_, T>) -> SegOut {
     let mut out = SegOut { calls: vec![], aborted: false };
     let mut before = match observe_all(t, cands, ctx.enc) {
         Ok(o) => o,
@@ -610,6 +690,27 @@ fn run_calls<T: Transactable>(t: &mut T, rng: &mut Rng, rep: &mut Report, ctx: &
             }
         };
         ctx.log.push(format!("{:?}", cmd));
+        // how conflicted is the register this call touches (evidence: the mixed counter / non-counter conflicts)
+        {
+            let prop = match &cmd {
+                Cmd::Put(_, p, _) | Cmd::PutObj(_, p, _) | Cmd::Delete(_, p) | Cmd::Inc(_, p, _) => Some(p.clone()),
+                _ => None,
+            };
+            if let Some(p) = prop {
+                if let Ok(vs) = t.get_all(cmd.obj(), prop_of(&p)) {
+                    let nc = vs.iter().filter(|(v, _)| matches!(v, Value::Scalar(s) if matches!(s.as_ref(), ScalarValue::Counter(_)))).count();
+                    if vs.len() >= 2 {
+                        rep.count(&format!("conflicted_register:{}", cmd.kind()));
+                    }
+                    if vs.len() >= 3 && nc >= 1 && nc < vs.len() {
+                        rep.count(&format!("mixed_3way_conflict:{}", cmd.kind()));
+                        if nc >= 2 {
+                            rep.count(&format!("mixed_3way_conflict_2counters:{}", cmd.kind()));
+                        }
+                    }
+                }
+            }
+        }
         let heads_before = t.base_heads();
         let pending_before = t.pending_ops();
         let r = guard(|| exec(t, &cmd));
@@ -690,6 +791,31 @@ fn run_calls<T: Transactable>(t: &mut T, rng: &mut Rng, rep: &mut Report, ctx: &
                 rep.fail(&["C03"], "edit|heads-moved-in-transaction", "an editing call moved the transaction's base heads", json!({"program": ctx.prog, "log": ctx.log.clone()}));
             }
         }
+        // every register of every object, read from a saved and reloaded copy of the document as it is now
+        match guard(|| reload(t, cands)) {
+            Ok(None) => {}
+            Ok(Some(Ok(o))) => {
+                rep.count("reload_compared");
+                if o != after {
+                    rep.fail(&["C03", "C11"], &format!("edit|reload-differs|{}", cmd.kind()),
+                        &format!("after {} the document and its saved-and-reloaded copy show different registers", cmd.kind()),
+                        json!({"program": ctx.prog, "log": ctx.log.clone()}));
+                    out.aborted = true;
+                    return out;
+                }
+            }
+            Ok(Some(Err(e))) => {
+                rep.fail(&["C03", "C11"], &format!("edit|reload-failed|{}", cmd.kind()), &e, json!({"program": ctx.prog, "log": ctx.log.clone()}));
+                out.aborted = true;
+                return out;
+            }
+            Err(p) => {
+                rep.fail(&["C03", "C11"], &format!("panic|edit|reload|{}", p.signature()), &format!("save / load of the edited document panicked: {} at {}", p.message, p.location),
+                    json!({"program": ctx.prog, "log": ctx.log.clone()}));
+                out.aborted = true;
+                return out;
+            }
+        }
         out.calls.push(CallRec { cmd, label, status, pending: pending_after, obs: Some(obs_coq(&after)) });
         before = after;
     }
@@ -746,18 +872,39 @@ fn merge_into(reps: &mut [Rep2], a: usize, b: usize) -> bool {
 }
 
 /// one program; returns (shared definitions, cases)
-fn program(rng: &mut Rng, rep: &mut Report, pi: usize, enc: TextEncoding, manual: bool, direct_only: bool, thorough: bool) -> (Vec<String>, Vec<(String, serde_json::Value)>) {
-    let nrep = rng.range(1, 2) as usize;
-    let mut log: Vec<String> = vec![format!("encoding {} manual {} replicas {}", enc_name(enc), manual, nrep)];
+fn reload_obs(bytes: &[u8], enc: TextEncoding, cands: &[(ObjId, ObjType)]) -> Result<Vec<(ObjId, String)>, String> {
+    match Automerge::load_with_options(bytes, automerge::LoadOptions::default().text_encoding(enc)) {
+        Ok(l) => observe_all(&l, cands, enc),
+        Err(e) => Err(format!("load(save(doc)) failed: {}", e)),
+    }
+}
+
+fn program(rng: &mut Rng, rep: &mut Report, pi: usize, enc: TextEncoding, manual: bool, direct_only: bool, focus: bool, thorough: bool) -> (Vec<String>, Vec<(String, serde_json::Value)>) {
+    let nrep = if focus { if rng.chance(2, 3) { 3 } else { 2 } } else { rng.range(1, 3) as usize };
+    let mut log: Vec<String> = vec![format!("encoding {} manual {} replicas {} focus {}", enc_name(enc), manual, nrep, focus)];
     let mut reps: Vec<Rep2> = vec![];
     for i in 0..nrep {
         let a = gen::actor(rng, i);
         if i == 0 {
-            reps.push(if manual {
-                Rep2::Manual(Automerge::new_with_encoding(enc).with_actor(a))
-            } else {
-                Rep2::Auto(AutoCommit::new_with_encoding(enc).with_actor(a))
-            });
+            // what every replica starts from (committed before the forks, so that concurrent edits meet on the same
+            // registers): a list, a text, a nested map and a few keys; conflict-focused programs get counters there
+            let mut d = AutoCommit::new_with_encoding(enc).with_actor(a);
+            let l = d.put_object(ROOT, "l", ObjType::List).unwrap();
+            for k in 0..rng.range(2, 3) {
+                let v = if focus { small_value(rng) } else { gen::scalar(rng) };
+                d.insert(&l, k as usize, v).unwrap();
+            }
+            d.put(ROOT, "a", if focus { small_value(rng) } else { gen::scalar(rng) }).unwrap();
+            if !focus {
+                let t = d.put_object(ROOT, "t", ObjType::Text).unwrap();
+                let s0: &str = *rng.pick(&gen::STRS);
+                d.splice_text(&t, 0, 0, s0).unwrap();
+                let m = d.put_object(ROOT, "m", ObjType::Map).unwrap();
+                d.put(&m, "k1", ScalarValue::counter(rng.below(5) as i64)).unwrap();
+            }
+            d.commit();
+            log.push("setup: list l, key a (text t, map m)".to_string());
+            reps.push(if manual { Rep2::Manual(d.document().clone()) } else { Rep2::Auto(d) });
         } else {
             let f = match &mut reps[0] {
                 Rep2::Auto(d) => Rep2::Auto(d.fork().with_actor(a)),
@@ -774,18 +921,31 @@ fn program(rng: &mut Rng, rep: &mut Report, pi: usize, enc: TextEncoding, manual
         }
         o.put_object(ROOT, "m", ObjType::Map).unwrap()
     };
-    let nseg = if thorough { rng.range(3, 9) } else { rng.range(3, 6) } as usize;
+    // conflict-focused programs run in rounds: every replica writes the shared registers (no merges), then two
+    // transactions that merge everybody and work on the conflicted registers
+    let period = nrep + 2;
+    let nseg: usize = if focus {
+        period * (if thorough { rng.range(3, 4) } else { rng.range(2, 3) } as usize)
+    } else if thorough {
+        rng.range(3, 9) as usize
+    } else {
+        rng.range(3, 6) as usize
+    };
     let mut defs: Vec<String> = vec![];
     let mut def_names: std::collections::HashMap<Vec<u8>, String> = std::collections::HashMap::new();
     let mut cases: Vec<(String, serde_json::Value)> = vec![];
-    let cfg = Cfg { marks: direct_only };
+    let mut cfg = Cfg { marks: direct_only, focus, diverge: false };
     let mut total_calls = 0usize;
     let mut conflicts_seen = false;
     for si in 0..nseg {
-        let r = rng.below(nrep as u64) as usize;
-        if nrep > 1 && rng.chance(1, 3) {
-            let o = 1 - r;
-            if merge_into(&mut reps, r, o) {
+        // conflict-focused programs: the replicas take turns, so that every one of them writes the shared registers
+        // before somebody merges
+        let phase = si % period;
+        let r = if focus && phase < nrep { phase } else { rng.below(nrep as u64) as usize };
+        cfg.diverge = focus && phase < nrep;
+        for o in 0..nrep {
+            let p = if focus { if phase < nrep { 0 } else { 3 } } else { 1 };
+            if o != r && rng.chance(p, 3) && merge_into(&mut reps, r, o) {
                 log.push(format!("r{} merge r{}", r, o));
                 conflicts_seen = true;
             }
@@ -794,12 +954,16 @@ fn program(rng: &mut Rng, rep: &mut Report, pi: usize, enc: TextEncoding, manual
         let actor = reps[r].actor();
         let start_op = reps[r].max_op() + 1;
         let mut cands = object_ids(&base);
-        let ncalls = if thorough { rng.range(2, 14) } else { rng.range(2, 9) } as usize;
+        let ncalls = if focus { rng.range(2, 5) } else if thorough { rng.range(2, 14) } else { rng.range(2, 9) } as usize;
         log.push(format!("r{} transaction {}", r, si));
         let mut ctx = Ctx { enc, cfg, foreign: &foreign, actor: actor.clone(), log: &mut log, prog: pi };
         let (seg, hash) = match &mut reps[r] {
             Rep2::Auto(d) => {
-                let seg = run_calls(d, rng, rep, &mut ctx, &mut cands, ncalls, start_op);
+                let reload = |d: &AutoCommit, cands: &[(ObjId, ObjType)]| {
+                    let mut c = d.clone();
+                    Some(reload_obs(&c.save(), enc, cands))
+                };
+                let seg = run_calls(d, rng, rep, &mut ctx, &mut cands, ncalls, start_op, &reload);
                 if seg.aborted {
                     return (defs, cases);
                 }
@@ -807,7 +971,7 @@ fn program(rng: &mut Rng, rep: &mut Report, pi: usize, enc: TextEncoding, manual
             }
             Rep2::Manual(d) => {
                 let mut tx = d.transaction();
-                let seg = run_calls(&mut tx, rng, rep, &mut ctx, &mut cands, ncalls, start_op);
+                let seg = run_calls(&mut tx, rng, rep, &mut ctx, &mut cands, ncalls, start_op, &|_, _| None);
                 if seg.aborted {
                     tx.rollback();
                     return (defs, cases);
@@ -852,6 +1016,28 @@ fn program(rng: &mut Rng, rep: &mut Report, pi: usize, enc: TextEncoding, manual
                 return (defs, cases);
             }
         };
+        {
+            let bytes = match &mut reps[r] {
+                Rep2::Auto(d) => d.save(),
+                Rep2::Manual(d) => d.save(),
+            };
+            match guard(|| reload_obs(&bytes, enc, &cands)) {
+                Ok(Ok(o)) => {
+                    if obs_coq(&o) != after_commit {
+                        rep.fail(&["C03", "C11"], "edit|reload-differs|commit", "after commit the document and its saved-and-reloaded copy show different registers", json!({"program": pi, "log": log.clone()}));
+                        return (defs, cases);
+                    }
+                }
+                Ok(Err(e)) => {
+                    rep.fail(&["C03", "C11"], "edit|reload-failed|commit", &e, json!({"program": pi, "log": log.clone()}));
+                    return (defs, cases);
+                }
+                Err(p) => {
+                    rep.fail(&["C03", "C11"], &format!("panic|edit|reload|{}", p.signature()), &format!("save / load after commit panicked: {}", p.message), json!({"program": pi, "log": log.clone()}));
+                    return (defs, cases);
+                }
+            }
+        }
         if let Some(last) = seg.calls.last() {
             if last.obs.as_deref() != Some(after_commit.as_str()) {
                 rep.fail(&["C03"], "edit|commit-changed-observation", "the document after commit differs from what the open transaction showed after its last call",
@@ -1148,23 +1334,32 @@ pub fn run(rng: &mut Rng, tier: &str, out: &str) -> Report {
     let mut cw = CaseWriter::new(out, "edit", HEADER, 1);
     let thorough = tier == "thorough";
     probes(&mut rep);
-    let n_prog = if thorough { 480 } else { 60 };
+    let n_prog = if thorough { 420 } else { 48 };
     let encs = [TextEncoding::UnicodeCodePoint, TextEncoding::Utf8CodeUnit, TextEncoding::Utf16CodeUnit];
     for pi in 0..n_prog {
         // every sixth program is direct-only: marks, blocks, and (half of them) grapheme clusters
         let direct_only = pi % 6 == 5;
         let enc = if direct_only && pi % 12 == 11 { TextEncoding::GraphemeCluster } else { encs[pi % 3] };
         let manual = (pi / 3) % 2 == 1;
+        // every third program is conflict-focused
+        let focus = !direct_only && pi % 3 == 1;
+        if focus {
+            rep.count("programs:conflict-focused");
+        }
         rep.count(&format!("programs:{}:{}", enc_name(enc), if manual { "manual" } else { "autocommit" }));
         if direct_only {
             rep.count("programs:direct-only");
         }
         let mut prng = rng.fork();
-        let r = guard(|| program(&mut prng, &mut rep, pi, enc, manual, direct_only, thorough));
+        let r = guard(|| program(&mut prng, &mut rep, pi, enc, manual, direct_only, focus, thorough));
         match r {
             Ok((defs, cases)) => {
-                if !cases.is_empty() {
+                // one shard per 5 transactions of a program (shards are evaluated in parallel)
+                let mut cases = cases;
+                while !cases.is_empty() {
+                    let rest = if cases.len() > 5 { cases.split_off(5) } else { vec![] };
                     cw.push_group(&defs, cases);
+                    cases = rest;
                 }
             }
             Err(p) => {
